@@ -4,8 +4,9 @@
   proof obligation).  Each alias is the component theorem itself (same statement, same proof term):
 
   * no audio-path loop can hang or underflow: transport wrap loops (any history of valid operations; a
-    degenerate loop region never reaches them), static sound in its domain, the clock's tick loop (its result
-    does not depend on the fuel once it covers ⌊timer⌋);
+    degenerate loop region never reaches them), static sound in its domain — which is every slice, start
+    position and direction: building a sound and stepping it never faults, a lookup never leaves the data —,
+    the clock's tick loop (its result does not depend on the fuel once it covers ⌊timer⌋);
   * the resource queues cannot overflow at the protocol's granularity and the audio thread only moves resources,
     it never destroys them (no free on the audio thread);
   * every effect is defined on its documented ranges (no zero divisor, no square root of a negative), the reverb
@@ -26,6 +27,8 @@ namespace K
 alias C01_transport_never_faults := C04_transport_inv
 alias C01_loop_region_never_degenerate := C04_transport_loop_never_degenerate
 alias C01_static_sound_never_faults := C04_in_domain_never_faults
+alias C01_any_static_sound_starts := C04_any_sound_starts
+alias C01_static_lookup_in_bounds := C04_never_outside_slice
 alias C01_tick_loop_terminates := C05_tick_loop_fuel_independent
 alias C01_resource_queues_bounded := C08_queue_bounds_partial
 alias C01_audio_thread_never_frees := C08_destroyed_off_audio_thread
